@@ -155,7 +155,7 @@ pub fn c03_checks() -> Vec<CheckDef> {
         "close-and-inert-replies",
         "generated histories of 1-2 channels: initial balances from the lattice {0,1,2,2^31,2^32,2^62,2^63-2,2^63-1} and random; 0-4 payments with amounts resolved against the model {0,+-1,+-cb,+-(cb+1),+-mb,+-(mb+1),+-(2^63-1),fill,random}; before every honest merchant reply 0-3 faults from {garbage, valid signature on a state with slot i altered, other reply type, other key, replayed from another session/channel/payment, all-identity (in memory, u=0), (s1,identity)}; aborts after start / after lock / at Inactive. Oracle after every step on a copy of the customer state: close() gives a message the merchant check and an independent pairing check accept on (cid, CLOSE, lock, cb, mb), with the ledger's balances for the stage and a lock never disclosed in a lock message; every faulty reply is refused with the state image unchanged and the honest reply accepted afterwards; the lock message carries the previous state's lock. Non-trivial = a refused reply followed by an accepted one, or a close from Started/Locked/Inactive; distinct by (history shape, faults)",
         &["refused/complete/valid-signature-on-altered-state", "refused/lock/valid-signature-on-altered-state", "refused/unlock/valid-signature-on-altered-state", "close-check/started", "close-check/locked"],
-        (64, 2000),
+        (64, 6000),
         c03_strategy,
         c03_oracle,
     )]
@@ -177,7 +177,7 @@ pub fn c05_hist_check() -> CheckDef {
         "revocation-completion",
         "generated histories with, before the right (pair, blinding factor) of every accepted payment, 0-3 wrong candidates from {pair of another state/channel/session, fresh pair + right bf, right pair + shifted / random / other payment's bf, both from another payment}; oracle: complete_payment is Err for every candidate that does not open the revocation-lock commitment atom of the accepted proof (independent Pedersen evaluation with the merchant's parameters), the pending payment is unchanged (Debug image) and the right pair then succeeds; the released pair opens that commitment; non-trivial = a refusal followed by success; distinct by (shape, candidates)",
         &["revocation/refusal-then-success"],
-        (40, 1500),
+        (40, 5000),
         c05_strategy,
         c05_oracle,
     )
@@ -188,7 +188,7 @@ pub fn c14_checks() -> Vec<CheckDef> {
         "merchant-view",
         "generated multi-channel histories (1-3 channels of one merchant, 0-3 payments each, faults and aborts included); the merchant's view is the ordered list of all protocol messages in both directions split into 32/48/96-byte atoms plus all public parameter elements; oracle: no atom of a customer message equals an atom of an earlier message or a public element (channel id exempt), and no secret scalar / element of the customer state at the time of sending (blinding factors, unrevealed nonce, revocation secret and lock, stored signatures, hidden balances as scalars) occurs in it, deliberate reveals exempt only in the revealing message; non-trivial = >=2 payments or >=2 channels; distinct by history shape",
         &["channels/2", "channels/3"],
-        (40, 800),
+        (40, 4000),
         c14_strategy,
         c14_oracle,
     )]
@@ -199,7 +199,7 @@ pub fn c20_checks() -> Vec<CheckDef> {
         "restore-twin",
         "generated histories (C03 distribution); at every customer step the state is encoded and decoded (twin) and both receive the same merchant reply (valid or faulty) and the same randomness; oracle: decoding succeeds, re-encoding is byte-identical, identical accept/refuse decision, byte-identical next state and outgoing message (start message nonce + proof, lock message); non-trivial = >=1 payment or a refused reply; distinct by (shape, refusals)",
         &["twin/start", "twin/lock/accepted", "twin/unlock/accepted", "twin/complete/accepted"],
-        (48, 1200),
+        (48, 6000),
         c20_strategy,
         c20_oracle,
     )]
